@@ -1,6 +1,7 @@
 (* C19 -- a failed or interrupted save never costs the last good save or poisons loading.
    Statements are about Store.v, the model of pyiron_workflow/storage.py + Node.save/load/
-   delete_storage/_after_node_setup as the code is after the scratch-file fix (8ca9d2e).
+   delete_storage/_after_node_setup as the code is after the fixes 8ca9d2e (scratch file +
+   replace) and 816f4c3 (delete removes scratch files, the cwd is never rmdir'ed).
    Only Theorem / exact / Print Assumptions live here; proofs are in StoreProofs.v.
 
    Quantification: [ops] is ANY history of saves (picklable / cloudpickle-only /
@@ -91,49 +92,24 @@ Theorem C19_delete_final_gone : forall ops l,
 Proof. exact delete_final_gone. Qed.
 Print Assumptions C19_delete_final_gone.
 
-(* "removes the files", partial: NOTHING the storage wrote for the location remains -- provided
-   no interrupted save left a scratch file there (guard = cause of known finding S24).  Missing
-   from the full statement: _delete does not know about <name>.tmp. *)
-Theorem C19_delete_cleans_partial : forall ops l,
-  read (run ops) (tmp l Pk) = None -> read (run ops) (tmp l Cp) = None ->
+(* "removes the files": NOTHING the storage wrote for the location remains -- final files and the
+   scratch files an interrupted save may have left (former finding S24, fixed by 816f4c3) *)
+Theorem C19_delete_cleans : forall ops l,
   let f' := run (ops ++ [ODelete l]) in
   forall fl, read f' (fin l fl) = None /\ read f' (tmp l fl) = None.
-Proof. exact delete_cleans_guarded. Qed.
-Print Assumptions C19_delete_cleans_partial.
+Proof. exact delete_cleans. Qed.
+Print Assumptions C19_delete_cleans.
 
-(* ... refuted without the guard: a save cut inside its write, then delete: the scratch file and
-   with it the directory survive.  Known finding S24. *)
-Theorem C19_delete_cleans_refuted_stale_tmp : exists ops l d,
-  fst l = Some d /\
-  let f' := run (ops ++ [ODelete l]) in
-  read f' (tmp l Pk) = Some (Partial 1) /\ dir_exists f' (Some d) = true.
-Proof.
-  exists [OSave (Some "g", "picklestorage") true CA 1%Z KOk 4 4 (Some (2, 1))], (Some "g", "picklestorage"), "g".
-  vm_compute. repeat split; reflexivity.
-Qed.
-Print Assumptions C19_delete_cleans_refuted_stale_tmp.
-
-(* delete (and a failing save) never raise OSError for a location inside a sub-directory, partial:
-   guard = the location's directory is not the cwd, or the cwd is not left empty (cause of known
-   finding S25) *)
-Theorem C19_delete_no_error_partial : forall f l d, fst l = Some d -> snd (fst (delete l f)) = false.
+(* delete never raises, and no save ends in OSError -- also for a bare file name in an otherwise
+   empty cwd, which is never rmdir'ed any more (former finding S25, fixed by 816f4c3) *)
+Theorem C19_delete_never_raises : forall f l, snd (fst (delete l f)) = false.
 Proof. exact delete_no_error. Qed.
-Print Assumptions C19_delete_no_error_partial.
+Print Assumptions C19_delete_never_raises.
 
-Theorem C19_delete_error_iff_cwd_emptied : forall f s,
-  snd (fst (delete (None, s) f)) = dir_empty (after_unlinks f (None, s)) None.
-Proof. exact delete_error_iff. Qed.
-Print Assumptions C19_delete_error_iff_cwd_emptied.
-
-(* ... refuted without the guard: a bare file name in an otherwise empty cwd; delete removes the
-   file and then raises OSError from Path('.').rmdir().  Known finding S25. *)
-Theorem C19_delete_refuted_cwd : exists ops l,
-  snd (fst (delete l (run ops))) = true /\ load_file (run ops) l = LOk CA 1%Z.
-Proof.
-  exists [OSave (None, "fn") true CA 1%Z KOk 4 4 None], (None, "fn").
-  vm_compute. split; reflexivity.
-Qed.
-Print Assumptions C19_delete_refuted_cwd.
+Theorem C19_save_never_oserror : forall l fb c v kd n g crash f,
+  snd (fst (save l fb c v kd n g crash f)) <> SOsErr.
+Proof. exact save_never_oserror. Qed.
+Print Assumptions C19_save_never_oserror.
 
 (* (4) loading into a node of another class is refused and leaves that node as it was (load does
    not touch the file system at all: it is a function of it); same for the constructor *)
@@ -148,7 +124,7 @@ Print Assumptions C19_class_accepted.
 
 Theorem C19_class_refused_at_construction : forall f label c c' v (dl : bool),
   load_file (if dl then fs_of (delete (default_loc label) f) else f) (default_loc label) = LOk c' v -> c' <> c ->
-  snd (fst (ctor label c dl true f)) = ((c, 0%Z), NTypeErr) \/ snd (snd (fst (ctor label c dl true f))) = NOsErr.
+  snd (fst (ctor label c dl true f)) = ((c, 0%Z), NTypeErr).
 Proof. exact class_refused_ctor. Qed.
 Print Assumptions C19_class_refused_at_construction.
 
@@ -175,4 +151,18 @@ Example C19_hyps_hold :
   load_file (run (ops ++ [OSave l true CA 5%Z KCloud 4 2 (Some (9, 0))])) l = LOk CA 1%Z /\
   load_file (run (ops ++ [OSave l true CA 5%Z KCloud 4 2 (Some (10, 0))])) l = LOk CA 5%Z /\
   node_load (run ops) l (CB, 7%Z) = ((CB, 7%Z), NTypeErr).
+Proof. vm_compute. repeat split; reflexivity. Qed.
+
+(* the scenarios of the former findings S24 / S25 on the current model: a save cut inside its write,
+   then delete -> scratch file and directory are gone; a bare file name in an empty cwd -> the file
+   is gone, nothing is raised, the cwd is not touched *)
+Example C19_former_findings_clean :
+  let l := (Some "g", "picklestorage") in
+  let f1 := run [OSave l true CA 1%Z KOk 4 4 (Some (2, 1))] in
+  let f2 := run [OSave (None, "fn") true CA 1%Z KOk 4 4 None] in
+  read f1 (tmp l Pk) = Some (Partial 1) /\ dir_exists f1 (Some "g") = true /\
+  read (fs_of (delete l f1)) (tmp l Pk) = None /\ dir_exists (fs_of (delete l f1)) (Some "g") = false /\
+  load_file f2 (None, "fn") = LOk CA 1%Z /\
+  delete (None, "fn") f2 = (fs0, false, [EUnlink (None, NFinal "fn" Pk); EUnlink (None, NTmp "fn" Pk);
+                                        EUnlink (None, NFinal "fn" Cp); EUnlink (None, NTmp "fn" Cp)]).
 Proof. vm_compute. repeat split; reflexivity. Qed.
